@@ -200,6 +200,17 @@ def rule_batch(ctx) -> None:
         ctx.check(okp, "C04.BATCH", f"{APPLY}/fallback-same-deltas", fn.loc(c),
                   "fallback iterates the very list passed to the batch call, one element per call",
                   "fallback does not iterate the batch list element-wise")
+    # "once more one by one": EVERY approved delta is offered - the per-delta loop has no early exit (a circuit breaker that gives up
+    # after some consecutive failures never hands the remaining deltas to the store at all)
+    for lp in [x for x in walk_no_defs(fn.node) if isinstance(x, ast.For)]:
+        if not any(part == "handler" for st, part in enclosing(ctx.prog, fn, lp)):
+            continue
+        if not any(isinstance(y, ast.Call) and _is_store_apply(ctx, fn, y, None) if False else (isinstance(y, ast.Call) and (call_tail(y) == "apply_deltas" or (isinstance(y.func, ast.Name) and y.func.id in {"apply_fn"}))) for st in lp.body for y in ast.walk(st)):
+            continue
+        exits = [y for st in lp.body for y in ast.walk(st) if isinstance(y, (ast.Break, ast.Return, ast.Raise))]
+        ctx.check(not exits, "C04.BATCH", f"{APPLY}/fallback-offers-every-delta", fn.loc(exits[0]) if exits else fn.loc(lp), "the one-by-one fallback has no early exit: every approved delta is offered to the store",
+                  f"the one-by-one fallback can leave its loop early (`{src(exits[0])[:30] if exits else ''}`): the approved deltas after that point are never handed to the store although the turn commits "
+                  "(version bump, snapshot) as if they had been")
     # "only if that batch call fails": nothing else inside the batch try may raise into the replaying handler - reading the
     # store's counters there (`int(res["edits"])`, `key in res`) turns an oddly shaped *successful* result into a replay
     if batch_try is not None:
